@@ -22,6 +22,7 @@ type shapeCase struct {
 	Depth       int    `json:"depth"`
 	Quant       string `json:"quant"`
 	Validations int    `json:"validations"`
+	Listing     string `json:"listing"` // how the first validation is listed: once | twoLevels | threeLevels | twiceInLevel
 }
 
 type shapeObs struct {
@@ -37,6 +38,8 @@ var shapePaths = map[string]string{
 	"pred": "ex.p", "seq": "ex.p / ex.q", "alt": "ex.p | ex.q", "inverse": "ex.p^", "altInSeq": "ex.p / (ex.q | ex.r)",
 	"seqInAlt": "(ex.p / ex.q) | ex.r", "type": "@type", "altMixedInverse": "ex.p | ex.q^", "seq3": "ex.p / ex.q / ex.r",
 	"altOfAlt": "(ex.p | ex.q) | (ex.r | ex.p^)", "underscore": "ex.has_name / ex.x_y_z",
+	"seqThenAltMixed": "ex.p / (ex.q^ | ex.r)", "seqThenAltMixedRev": "ex.p / (ex.r | ex.q^)",
+	"seq2ThenAltMixed": "ex.p / ex.q / (ex.r^ | ex.p)", "seq2ThenAltMixedRev": "ex.p / ex.q / (ex.p | ex.r^)",
 }
 
 // regular expressions a profile may legitimately use (the pattern is pasted into the policy by the translator)
@@ -124,6 +127,17 @@ func renderShape(c shapeCase) string {
 		name := fmt.Sprintf("validation-%d", v)
 		lvl := []string{"violation", "warning", "info"}[(v-1)%3]
 		levels[lvl] = append(levels[lvl], name)
+		if v == 1 {
+			switch c.Listing {
+			case "twoLevels":
+				levels["warning"] = append(levels["warning"], name)
+			case "threeLevels":
+				levels["warning"] = append(levels["warning"], name)
+				levels["info"] = append(levels["info"], name)
+			case "twiceInLevel":
+				levels[lvl] = append(levels[lvl], name)
+			}
+		}
 		// texts of a well-formed profile may hold any character: rotate a few that are special to some stage
 		val := map[string]any{"targetClass": "ex.T", "message": "shape " + name + shapeTexts[(v+c.Siblings+c.Depth+len(c.Kind))%len(shapeTexts)]}
 		for k, x := range body {
